@@ -13,7 +13,7 @@ HARNESSES.append(H("errtab", "C10/tables.c", defines={"SEL_ERRTAB": 1, "SNP_MAX"
 HARNESSES += [h for h in _load("C05").HARNESSES if h.name.startswith("wrap.") and (".ch2" in h.name or "_raw.ch1" in h.name and "probe" not in h.name)]
 HARNESSES += [h for h in _load("C06").seek_harnesses()]
 # sf_command on a NULL handle / with bad arguments touches nothing (the C09 obligations inside the command harness)
-HARNESSES += [h for h in _load("C17").HARNESSES if h.name.startswith("cmd.SFC_SET") or h.name in ("cmd.SFC_UPDATE_HEADER_NOW", "cmd.SFC_FILE_TRUNCATE")]
+HARNESSES += [h for h in _load("C17").HARNESSES if h.name.startswith("cmd.SFC_SET") or h.name in ("cmd.SFC_UPDATE_HEADER_NOW", "cmd.SFC_FILE_TRUNCATE") or h.name.startswith("metarefuse.")]
 # a failing open through the real entry points returns NULL, sets the global error, closes only what it owns
 HARNESSES += [h for h in _load("C14").HARNESSES if h.name.startswith("open_entry.")]
 META = {"assumptions": ["I_open"], "outside": ["failed sf_open leaves nothing behind: see C16"]}
